@@ -32,7 +32,8 @@ META = {
     "same non-file leaves; C33_shape, C33_tree_map); over the whole Outputs object the copies have pairwise disjoint "
     "destinations, all inside the workflow directory, made by hard link or copy, with the source's content "
     "(C33_injective, C33_leaf_injective, C33_no_loss); this rests on ONE clash set being handed from field to field, which "
-    "ends up holding exactly the created destinations (C33_shared_clash_set).  The contract is instantiated by a concrete "
+    "ends up holding exactly the created destinations (C33_shared_clash_set).  The field loop takes names and values only, never a declared type (C33_no_type_dependence; "
+    "C33_witness_skipped_field shows a skipped field keeps its files in the node directory).  The contract is instantiated by a concrete "
     "counter-suffix primitive (copyOneRef_contract).  Tie to pydra: copyfile_workflow is run on real files (nested "
     "lists/dicts/tuples, colliding names from several directories, directories, multi-file sets, patched mount table) and "
     "through real workflows with the debug worker; results, destinations, link kinds, and the sequence of FileSet.copy "
@@ -40,7 +41,9 @@ META = {
     "note": "Trusted: Lean kernel; hand-written model of copyfile_workflow/copy_nested_files/apply_to_instances; the "
     "contract of fileformats.FileSet.copy (assumed, sampled on every run, not proved); generator reach.  What pydra owns "
     "here is small (traversal, memo, threading one set); how files are named and copied is fileformats'.",
-    "rule": "case = (file-sets on disk, Python objects, nested value per output field, mount table); distinct by canonical "
+    "rule": "case = (file-sets on disk, Python objects, per output field: DECLARED type (untyped, Any, object, list, dict, "
+    "tuple, List[Any], dict[str,Any], Tuple[Any,...], File, list[File], dict[str,File], File|None) and a conforming nested "
+    "value, mount table); the oracle ignores the declared type; distinct by canonical "
     "JSON; non-trivial = at least two file leaves and (two different file-sets with the same name in different "
     "directories, or a repeated object, or nesting depth >= 2)",
     "assumptions": [
@@ -66,6 +69,8 @@ OBLIGATIONS = [
         "C33_shared_clash_set",
         "C33_no_loss",
         "C33_progress_ref",
+        "C33_no_type_dependence",
+        "C33_witness_skipped_field",
         "wf_sel",
         "copyOneRef_contract",
         "traverse_err",
@@ -81,6 +86,17 @@ CORPUS = core.VERIF / "corpus" / "files"
 
 # --------------------------------------------------------------------------------------
 # generation
+
+
+def declared_field(rng, name: str, sets: list, objs: list, depth: int, allow_file_keys: bool) -> dict:
+    """A field with a DECLARED type (an aspect the behaviour must not depend on) and a value that conforms to it."""
+    file_objs = [i for i, si in enumerate(objs) if sets[si]["cls"] in ("File", "TextFile")]
+    decl = rng.choice(F.DECL_LABELS)
+    v = F.gen_declared_value(rng, decl, len(objs), file_objs, depth, allow_file_keys)
+    if v is None:
+        decl = rng.choice(["list", "dict", "tuple", "object"])
+        v = F.gen_declared_value(rng, decl, len(objs), file_objs, max(depth, 1), allow_file_keys)
+    return {"name": name, "value": v, "decl": decl}
 
 
 def gen_direct(rng) -> dict:
@@ -100,7 +116,7 @@ def _gen_direct(rng) -> dict:
     for _ in range(rng.choice([0, 0, 1, 2])):  # equal but distinct objects
         objs.append(rng.randrange(len(sets)))
     nf = rng.choice([1, 2, 2, 3, 3, 4])
-    fields = [{"name": f"o{i}", "value": F.gen_tree(rng, len(objs), rng.choice([0, 1, 2, 3]), True, [])} for i in range(nf)]
+    fields = [declared_field(rng, f"o{i}", sets, objs, rng.choice([0, 1, 2, 3]), True) for i in range(nf)]
     case = {
         "op": "collect",
         "via": "direct",
@@ -130,7 +146,9 @@ def gen_clash(rng) -> dict:
         v = {"l": [leaves[0], {"t": leaves[1:3]}, {"d": [[{"a": "k"}, {"l": leaves[3:]}]]}]}
     else:
         v = {shape: leaves}
-    fields = [{"name": "o0", "value": v}, {"name": "o1", "value": {"t": [{"o": 1}, {"o": 0}]}}]
+    d0 = {"l": ["list", "List[Any]"], "t": ["tuple", "Tuple[Any,...]"], "d": ["dict", "dict[str,Any]"], "nested": ["list", "List[Any]"]}[shape]
+    fields = [{"name": "o0", "value": v, "decl": rng.choice(d0 + ["Any", "untyped", "object"])},
+              {"name": "o1", "value": {"t": [{"o": 1}, {"o": 0}]}, "decl": rng.choice(["tuple", "Tuple[Any,...]", "object", "untyped"])}]
     return {"op": "collect", "via": "direct", "sets": sets, "objs": list(range(len(sets))), "fields": fields, "table": [],
             "dest": "wf"}  # fmt: skip
 
@@ -159,7 +177,7 @@ def gen_public(rng) -> dict:
     if not sets:
         per_node[0].append({"cls": "File", "names": ["out.txt"]})
         sets.append({"cls": "File", "paths": ["@0/out.txt"], "node": 0, "idx": 0})
-    fields = [{"name": f"o{i}", "value": F.gen_tree(rng, len(sets), rng.choice([0, 1, 2]), False, [])} for i in range(3)]
+    fields = [declared_field(rng, f"o{i}", sets, list(range(len(sets))), rng.choice([0, 1, 2]), False) for i in range(3)]
     return {"op": "collect", "via": "public", "sets": sets, "objs": list(range(len(sets))), "fields": fields, "table": [],
             "dest": "@wf", "per_node": per_node}  # fmt: skip
 
@@ -247,7 +265,7 @@ def run_direct(ctx, case: dict, n: int) -> dict:
     dest = root / case["dest"]
     labelled: dict = {}
     values = [F.build_value(f["value"], env["objs"], labelled) for f in case["fields"]]
-    outputs = F.outputs_object(values)
+    outputs = F.outputs_object(values, [f.get("decl", "untyped") for f in case["fields"]])
     before = set(os.listdir(dest))
     err, out = None, None
     with F.patched_mounts(case, root), F.Recorder() as rec:
@@ -332,7 +350,7 @@ def run_public(ctx, case: dict, n: int) -> dict:
             out["id"] = t["id"]
         return out
 
-    wf = F.Collect(
+    wf = F.collect_workflow([f.get("decl", "untyped") for f in case["fields"]])(
         s0=json.dumps(case["per_node"][0]),
         s1=json.dumps(case["per_node"][1]),
         s2=json.dumps(case["per_node"][2]),
@@ -417,6 +435,8 @@ def judge_all(ctx, runs: list[dict]):
             impl, model = strip_kinds(impl), strip_kinds(model)
         ctx.count(f"via={case['via']}")
         ctx.count(f"fields={len(case['fields'])}")
+        for f in case["fields"]:
+            ctx.count(f"decl[{case['via']}]=" + f.get("decl", "untyped"))
         ctx.count("err=" + str(r["impl"]["err"]))
         ctx.count("mounts" if case.get("table") else "no-mounts")
         for s in case["sets"]:
